@@ -141,7 +141,7 @@ def pad_tables(call, k):
             elif cn == call['l_attr']:
                 col.append('pad')
             else:
-                col.append(col[0] if n else (0 if L['dtypes'].get(cn) in ('int64', 'float64') else
+                col.append(col[0] if n else (0 if str(L['dtypes'].get(cn)).startswith(('int', 'float')) else
                                              (False if L['dtypes'].get(cn) == 'bool' else 'p')))
     if L.get('index') is not None:
         L['index'] = list(L['index']) + ['padidx%d' % x for x in range(k)]
